@@ -376,7 +376,7 @@ def check_lifecycle(prop, tier, seed, replay=None):
         nd, ng = sizes(prop, tier)
         corpus = corpus_scripts(prop)
         if prop == "C10":
-            base = families.fam_C10_base(seed, nd)
+            base = families.with_aligned(families.fam_C10_base(seed, nd), seed, 0.25)
             base_res = run.run_batch(hbin, base, with_model=False)
             scripts = list(corpus)
             for (name, text), r in zip(base, base_res):
@@ -384,7 +384,11 @@ def check_lifecycle(prop, tier, seed, replay=None):
                     scripts.extend(families.crash_variants(name, text, r.blocks))
             scripts += base
         elif prop == "C11":
-            base = families.fam_C09(seed, nd) + families.fam_C05(seed + 7, max(5, nd // 3)) + families.fam_C08(seed + 11, max(5, nd // 3))
+            base = families.with_aligned(families.fam_C09(seed, nd) + families.fam_C05(seed + 7, max(5, nd // 3)) +
+                                         families.fam_C08(seed + 11, max(5, nd // 3)) +
+                                         # requests that find an expired or anomalous session (the delete of an invalidated session can fail)
+                                         families.fam_C03(seed + 13, max(4, nd // 4)) + families.fam_C06(seed + 17, max(4, nd // 4)),
+                                         seed, 0.25)
             base_res = run.run_batch(hbin, base, with_model=False)
             scripts = list(corpus)
             rnd = random.Random(seed)
@@ -396,7 +400,7 @@ def check_lifecycle(prop, tier, seed, replay=None):
                     else:
                         scripts.extend(families.fault_variants(name, text, r.blocks, pairs=True, rnd=rnd, limit=3))
         else:
-            scripts = corpus + families.FAMILIES[prop](seed, nd)
+            scripts = corpus + families.with_aligned(families.FAMILIES[prop](seed, nd), seed)
         directed = set(n for n, _ in scripts)
         general = families.fam_general(seed, ng)
         scripts = scripts + general
@@ -419,7 +423,8 @@ def check_lifecycle(prop, tier, seed, replay=None):
         "request granularity: each API call runs to completion before the next starts (atomicity of same-id requests is C13 plus the lock bracket in Start)",
         "ids are unguessable: a client never presents an id the server has not minted yet",
         "the persistence layer is the harness's honest key/value store using the package's own codecs",
-        "virtual clock of the Go runtime (faketime); thresholds are never hit at the exact instant of equality unless they are 0",
+        "virtual clock of the Go runtime (faketime); about a third of the histories put every request on an exact multiple of the time "
+        "unit, so that idle times and ages equal to a configured duration occur",
     ]
     evaluate(prop, results, rep, hbin, directed, counter, shrink_budget=(30 if tier == "quick" else 120))
     if prop == "C07" and not replay:
